@@ -232,13 +232,14 @@ impl Report {
         let case_limit = self.case_limit;
         let mut stuck: Option<u64> = None;
         std::thread::scope(|s| {
+            let mut handles = vec![];
             for w in 0..nthreads {
                 let slots = &slots;
                 let workers_done = &workers_done;
                 let accs = &accs;
                 let next = &next;
                 let capped = &capped;
-                s.spawn(move || {
+                handles.push(s.spawn(move || {
                     let mut a = Acc {
                         executed: 0,
                         nontrivial: 0,
@@ -289,14 +290,18 @@ impl Report {
                     }
                     accs.lock().unwrap().push(a);
                     workers_done.fetch_add(1, Ordering::Release);
-                });
+                }));
             }
-            // the spawning thread is the watchdog
-            while workers_done.load(Ordering::Acquire) < nthreads as u64 {
+            // the spawning thread is the watchdog (a worker that ended by a panic of the harness is
+            // not stuck: the panic surfaces when the scope ends, as a machinery error)
+            while handles.iter().any(|h| !h.is_finished()) {
                 std::thread::sleep(Duration::from_millis(25));
                 let now_ms = t0.elapsed().as_millis() as u64;
-                for sl in slots.iter() {
+                for (w, sl) in slots.iter().enumerate() {
                     let idx = sl.0.load(Ordering::Acquire);
+                    if handles[w].is_finished() {
+                        continue;
+                    }
                     if idx != u64::MAX && now_ms.saturating_sub(sl.1.load(Ordering::Relaxed)) > case_limit.as_millis() as u64 && sl.0.load(Ordering::Acquire) == idx {
                         stuck = Some(idx);
                     }
